@@ -22,6 +22,9 @@ structure InvC (vars : Array Var) (cons : Array Con) (nblocks : Nat) (inactive :
   outs_complete : ∀ j : Nat, j < cons.size → j ∈ (vars[(cons[j]!).l]!).outs
   ins_sound : ∀ u j : Nat, j ∈ (vars[u]!).ins → j < cons.size ∧ (cons[j]!).r = u
   ins_complete : ∀ j : Nat, j < cons.size → j ∈ (vars[(cons[j]!).r]!).ins
+  /-- no constraint is listed twice -/
+  outs_nodup : ∀ u : Nat, (vars[u]!).outs.toList.Nodup
+  ins_nodup : ∀ u : Nat, (vars[u]!).ins.toList.Nodup
   /-- active constraints join two variables of one block and are tight in offsets -/
   tight : ∀ j : Nat, j < cons.size → (cons[j]!).active = true →
     blk vars (cons[j]!).l = blk vars (cons[j]!).r ∧
@@ -130,6 +133,20 @@ theorem linkCon_ins_iff (st : St) (ci : Nat) (c : Con) (u j : Nat) :
   simp only [get!_set!]
   split <;> split <;> simp_all [Array.mem_push] <;> (intro _ h1 h2; subst h1; simp_all <;> omega)
 
+theorem linkCon_outs_list (st : St) (ci : Nat) (c : Con) (u : Nat) :
+    ((st.linkCon ci c).vars[u]!).outs =
+      if u = c.l ∧ c.l < st.vars.size then (st.vars[u]!).outs.push ci else (st.vars[u]!).outs := by
+  unfold St.linkCon
+  simp only [get!_set!]
+  split <;> split <;> simp_all <;> (intro h1; first | exact absurd h1.symm (by assumption) | (subst h1; simp_all))
+
+theorem linkCon_ins_list (st : St) (ci : Nat) (c : Con) (u : Nat) :
+    ((st.linkCon ci c).vars[u]!).ins =
+      if u = c.r ∧ c.r < st.vars.size then (st.vars[u]!).ins.push ci else (st.vars[u]!).ins := by
+  unfold St.linkCon
+  simp only [get!_set!]
+  split <;> split <;> simp_all <;> (intro h1; first | exact absurd h1.symm (by assumption) | (subst h1; simp_all))
+
 theorem addConstraint_outs_iff (st : St) (c : Con) (u j : Nat) :
     j ∈ (((st.addConstraint c).vars)[u]!).outs ↔
       j ∈ (st.vars[u]!).outs ∨ (j = st.cons.size ∧ u = c.l ∧ c.l < st.vars.size) :=
@@ -165,7 +182,31 @@ theorem addConstraint_inv (st : St) (c : Con) (hl : c.l < st.vars.size) (hr : c.
   rw [hcons, hblocks, hinact]
   refine
     { outs_sound := ?_, outs_complete := ?_, ins_sound := ?_, ins_complete := ?_, tight := ?_,
-      bridge := ?_, conn := ?_, fresh := ?_, cover := ?_, inact_lt := ?_, flags := ?_ }
+      bridge := ?_, conn := ?_, fresh := ?_, cover := ?_, inact_lt := ?_, flags := ?_,
+      outs_nodup := fun u => by
+        have e : ((st.addConstraint c).vars[u]!).outs = _ := linkCon_outs_list _ _ _ u
+        rw [e]
+        split
+        · rw [Array.toList_push, List.nodup_append]
+          refine ⟨h.outs_nodup u, by simp, ?_⟩
+          intro a ha b hb
+          simp only [List.mem_singleton] at hb
+          subst hb
+          have := (h.outs_sound u a (by simpa using ha)).1
+          exact Nat.ne_of_lt this
+        · exact h.outs_nodup u,
+      ins_nodup := fun u => by
+        have e : ((st.addConstraint c).vars[u]!).ins = _ := linkCon_ins_list _ _ _ u
+        rw [e]
+        split
+        · rw [Array.toList_push, List.nodup_append]
+          refine ⟨h.ins_nodup u, by simp, ?_⟩
+          intro a ha b hb
+          simp only [List.mem_singleton] at hb
+          subst hb
+          have := (h.ins_sound u a (by simpa using ha)).1
+          exact Nat.ne_of_lt this
+        · exact h.ins_nodup u }
   · intro u j hj
     rcases (addConstraint_outs_iff st c u j).1 hj with hold | ⟨rfl, rfl, _⟩
     · obtain ⟨h1, h2⟩ := h.outs_sound u j hold
@@ -251,7 +292,9 @@ theorem InvC.congr_vars {vars vars' : Array Var} {cons : Array Con} {n : Nat} {i
   refine
     { outs_sound := ?_, outs_complete := ?_, ins_sound := ?_, ins_complete := ?_, tight := ?_,
       bridge := h.bridge, conn := ?_, fresh := ?_, cover := h.cover, inact_lt := h.inact_lt,
-      flags := h.flags }
+      flags := h.flags,
+      outs_nodup := fun u => by rw [(hv u).2.2.2]; exact h.outs_nodup u,
+      ins_nodup := fun u => by rw [(hv u).2.2.1]; exact h.ins_nodup u }
   · intro u j hj; rw [(hv u).2.2.2] at hj; exact h.outs_sound u j hj
   · intro j hj; rw [(hv _).2.2.2]; exact h.outs_complete j hj
   · intro u j hj; rw [(hv u).2.2.1] at hj; exact h.ins_sound u j hj
@@ -326,7 +369,9 @@ theorem init_inv (vs : Array (Rat × Rat × Rat)) (cs : Array Con)
         rw [getElem!_neg _ u hu']; exact ⟨rfl, rfl⟩
     refine
       { outs_sound := ?_, outs_complete := ?_, ins_sound := ?_, ins_complete := ?_, tight := ?_,
-        bridge := ?_, conn := ?_, fresh := ?_, cover := ?_, inact_lt := ?_, flags := ?_ }
+        bridge := ?_, conn := ?_, fresh := ?_, cover := ?_, inact_lt := ?_, flags := ?_,
+        outs_nodup := fun u => by rw [(houts u).1]; simp,
+        ins_nodup := fun u => by rw [(houts u).2]; simp }
     · intro u j hj; rw [(houts u).1] at hj; simp at hj
     · intro j hj; simp at hj
     · intro u j hj; rw [(houts u).2] at hj; simp at hj
